@@ -392,7 +392,9 @@ def ref_transform(g, root, callbacks, log):
             if is_obj(g, prev):
                 log.append(('meta', i, repr(sorted(prev._metadata._fields.items()))))
             cur = cb(prev)
-            if cur is not prev and is_obj(g, prev) and is_obj(g, cur) and not len(cur._metadata):
+            # "without metadata of its own": nothing recorded, or nothing but empty entries (an operator
+            # node that came out of a parse has no span of its own)
+            if cur is not prev and is_obj(g, prev) and is_obj(g, cur) and not any(v is not None for v in cur._metadata._fields.values()):
                 cur._metadata.update(prev._metadata)
         return cur
     return _run_deep(go, root)
